@@ -198,6 +198,13 @@ Theorem C18_cmp_correct : forall hz hp h i j,
 Proof. exact history_cmp_correct. Qed.
 Print Assumptions C18_cmp_correct.
 
+(* the same for ANY two objects that satisfy the invariants (not only reachable ones) *)
+Theorem C18_eq_iff_denotation : forall hz hp o p q, objinv hz hp p -> objinv hz hp q ->
+  ready o p = true -> ready o q = true ->
+  (fst (fst (poly_eq hz hp o p q)) = true <-> to_mpoly (pdata p) = to_mpoly (pdata q)).
+Proof. exact poly_eq_correct. Qed.
+Print Assumptions C18_eq_iff_denotation.
+
 (* equal polynomials hash equally in every reachable state *)
 Theorem C18_hash_equal : forall hz hp h i j,
   let s := run hz hp write_reset state0 h in
